@@ -4,11 +4,23 @@ import json, subprocess
 claimed = {
  "C01": ("bridge", "exploration", "5 C01", "seeded schedule/fault search over oracle vote interleavings on the real app; state invariants on attestation store + event history"),
  "C02": ("bridge", "exploration", "5 C02", "seeded search over stake distributions, vote orders and stake changes; exact-arithmetic recomputation of the tally; signer-vs-voter admission check incl. foreign-wrap transport fault"),
+ "C03": ("bridge", "exploration", "5 C03", "seeded Byzantine one-field claim variants (fields found by reflection) and threshold-crossing order; differential execution of every pair of variants that share an attestation on branches of the real state, full store dumps must be equal"),
+ "C04": ("bridge", "exploration", "5 C04", "seeded multi-user multi-token bridge histories; conservation equations per token group, per-step balance deltas, withdrawability, evaluated after every step on committed state"),
+ "C05": ("bridge", "exploration", "5 C05", "seeded send/cancel/fee-bump/batch/timeout/relay races; observational life-cycle model of every outgoing transfer and bridge call checked against raw pool/batch/call stores after every step"),
+ "C06": ("bridge", "exploration", "5 C06", "seeded external-height/observation-lag/relayer schedules (late, out of order, after cancel); executable model of FxBridgeLogic.sol is the judge for never-both; timeout-proved on observed heights"),
+ "C12": ("bridge", "exploration", "5 C12", "honest oracles sign digests from an independent ABI encoder; Byzantine confirmations (wrong key/object/chain id/prefix/truncated/garbage/foreign signer) must be rejected; every stored confirmation is re-verified and must be executable by the contract model"),
+ "C13": ("bridge", "exploration", "5 C13", "seeded oracle life cycles (bond, add-delegate, redelegate, slash, governance removal, unbonding period via clock jumps, unbond); registry bijection, stake ledger, justified-slash witness, bounded liveness of unbond after faults stop"),
  "C07": ("bridge", "exploration", "5 C07", "seeded search over aged states (crashed confirmers, elapsed signed windows, churn, governance); FinalizeBlock/Commit panics and errors are recovered and reported as halts"),
 }
 notes = {
  "C01": "trusts the harness' raw-store decoding of the attestation/pending prefixes; sampling, not proof",
  "C02": "quorum is recomputed from the state committed before the block; blocks that also change stakes are skipped for the quorum oracle (counted by a probe)",
+ "C03": "covers the variants the Byzantine actors generate (one field at a time, values that pass stateless validation); the pure injectivity half is sampled, not enumerated",
+ "C04": "FX is checked on the eth module escrow account (FX is also minted/staked); bridged coin checked on user-held supply; ERC-20 side read through read-only EVM calls",
+ "C05": "the model never predicts which transfers a batch selects; refund exactness is checked in single-transaction blocks",
+ "C06": "the external contract is a Go model written from FxBridgeLogic.sol (height < timeout, nonce rules, signature power), not the Solidity code itself",
+ "C12": "digest equality is checked on the objects that arise in runs (honest confirmation accepted <=> digests agree), not on arbitrary 2^64 values; TRON digests only via the prefix fault",
+ "C13": "validator slashing makes stake comparisons inexact; those comparisons are skipped once the oracle's validator has been slashed",
  "C07": "halts are Go panics/errors out of FinalizeBlock/Commit of the real app over MemDB; CometBFT itself is a stub",
 }
 na = [
